@@ -134,7 +134,7 @@ fn check_program(ctx: &mut Ctx, prog: &program::Program, pidx: u64, stepper: Ste
       ctx.inconclusive("hook ring overflowed within one step");
       return;
     }
-    let ev: Vec<Event> = verif::events().iter().cloned().filter(|e| e.kind != EV_WRITE || true).collect();
+    let ev: Vec<Event> = support::masked_events();
     // --- rule 1/2: shape of the step
     let kinds: Vec<u8> = ev.iter().filter(|e| e.kind != EV_WRITE).map(|e| e.kind).collect();
     let shape_ok = if running {
